@@ -211,8 +211,9 @@ class HDict(object):
     """Dict with string keys. keys: Array String Bool; vals: Array String T (ek) or
     concrete dict when `items` is not None."""
 
-    def __init__(self, ek=None, keys=None, vals=None, items=None):
+    def __init__(self, ek=None, keys=None, vals=None, items=None, default=False):
         self.ek, self.keys, self.vals, self.items = ek, keys, vals, items
+        self.default = default     # collections.defaultdict(lambda: None): a missing key reads as None
 
     def __repr__(self):
         return "HDict(%s)" % (self.ek if self.items is None else sorted(self.items))
